@@ -63,7 +63,9 @@ CHECKS: dict[str, dict[str, str]] = {
                  "valid, that bit regrouping is invertible, that address and scriptPubKey are inverse maps on every version x length x network and "
                  "that no prefix is shared by main and test networks; every recorded decode/encode of Base58Check, bech32(m), segwit address, WIF "
                  "and address<->script on valid strings and their single-character substitutions, transpositions, case flips, truncations and "
-                 "extensions is recomputed by TLC with the BIPs' reference algorithms."),
+                 "extensions is recomputed by TLC with the BIPs' reference algorithms, as are segwit strings with every padding defect (surplus characters, non-zero partial "
+                 "groups) under a recomputed checksum, every key spelling (WIF, xprv, xpub, SLIP132 versions, octets) read with every declared network of the five "
+                 "(which network answers, which addresses it gives), and every ScriptPubKey constructor on every network (remembered network, address)."),
         "technique": "TLA+ transcription of the BIP173/350 reference decoder, Base58Check and address templates; TLC model checking + trace validation",
         "design_ref": "DESIGN.md section 4 C06",
     },
@@ -116,7 +118,8 @@ CHECKS: dict[str, dict[str, str]] = {
                  "signature pairs accepted). Recorded and validated by TLC: combines of every order and bracketing over PSBTs whose non-structural pairs were dealt to "
                  "2-3 copies (built and signed by the library over several script types, v0 and v2 with sequence 0 / required lock times / explicit SIGHASH_DEFAULT, "
                  "the BIP vectors, enriched copies); assert_signatures_only on honest answers and on every single-pair tampering; sign, request_signatures, finalize, "
-                 "to_v0/to_v2 checked for the unsigned transaction (re-derived from the maps per BIP370), for their arguments being left unchanged and for shared objects."),
+                 "to_v0/to_v2 checked for the unsigned transaction (re-derived from the maps per BIP370), for their arguments being left unchanged and for shared objects; "
+                 "PsbtView (the streamed reader) is compared map by map, transaction and lock time with the parsed object."),
         "technique": "TLA+ specification of the PSBT roles over key-value maps model-checked with TLC; recorded combines, signer answers and role calls validated as traces",
         "design_ref": "DESIGN.md section 4 C11",
     },
@@ -155,7 +158,8 @@ CHECKS: dict[str, dict[str, str]] = {
     "C15": {
         "text": ("Module Miniscript is BIP379's fragment-to-script table and the spending condition of an expression; the harness writes expressions as trees (46 "
                  "hand-written ones covering every fragment and wrapper plus randomly composed ones the library's type system accepts) and TLC compares the compiled "
-                 "script and its predicted size with the specification's compilation; read-back and re-parse are recorded. For scenarios of available signatures, "
+                 "script and its predicted size with the specification's compilation; read-back and re-parse are recorded. The correctness half of BIP379's type system "
+                 "(base type B/V/K/W and the z/o/n/d/u modifiers) is specified too and the library's verdict and type are compared on well- and ill-typed expressions. For scenarios of available signatures, "
                  "preimages and (version, lock time, sequence) classes, a satisfaction is produced only when the specification's spending condition holds, and when "
                  "produced the specification's own engine (ScriptSigs) accepts the spend and the witness stays within the predicted items, bytes and executed ops "
                  "(counted by the specification's machine); the psbt route through miniscript_solver is run with two inputs."),
@@ -169,7 +173,10 @@ CHECKS: dict[str, dict[str, str]] = {
                  "exhaustively. On secp256k1, sessions recorded from ecc.musig2 are recomputed by TLC (aggregate key, every partial verification, the aggregate, BIP340 "
                  "validity, adaptor round trip); ECDH/X9.63-KDF and BIE1 keys, BIP374 proofs with altered statements, BIP352 sender outputs (address order, "
                  "labels, repeats), both scanners and the spend key are recomputed from the TwoParty specification; ECIES round trips over every key spelling and "
-                 "ElligatorSwift exchanges are checked for agreement."),
+                 "ElligatorSwift exchanges are checked for agreement. BIP373 sessions run over a psbt (each signer on its own copy, combined, aggregated, finalized, spent) "
+                 "are recomputed from what the psbt says in the four ways an aggregate key reaches the spent key (BIP341 tweak, BIP328 derivation, leaf key). Borromean ring "
+                 "signatures and Pedersen commitments are specified generically (RingSig): signing is model-checked on the toy curve for every ring shape, signer position and "
+                 "key, and secp256k1 signatures, six kinds of alteration and commitments are recomputed."),
         "technique": "TLA+ BIP327 / two-party specifications; toy-curve session model-checked exhaustively with TLC; recorded secp256k1 sessions, proofs and payments validated as traces",
         "design_ref": "DESIGN.md section 4 C16",
     },
